@@ -278,6 +278,10 @@ def run(ctx):
         ctx.guard("gather", "avx", lambda: check_gather(ctx, progs["K4"], "avx", 8))
         ctx.guard("sigma", "avx", lambda: check_sigma(ctx, progs["K4"], "avx", "_mm256"))
     ctx.guard("layout", "blake2", lambda: check_layout(ctx, progs))
+    from . import simdeq
+    got = []
+    ctx.guard("lane-eq", "blake2", lambda: got.append(simdeq.check_blake2_simd(ctx, progs)))
+    ctx.check(got == [6], "floor", "lane-eq", "3 SIMD BLAKE2 compression functions x {final, non-final} compared with RFC 7693 F", "only %s SIMD BLAKE2 comparisons ran" % got, key="floor:lane-eq")
     ctx.guard("blake2-rot", "simd", lambda: check_blake2_rot(ctx, progs))
     # both ChaCha engines against the same specification rules (C03)
     if "K0" in progs:
@@ -293,4 +297,4 @@ def run(ctx):
         ctx.guard("counter", "reference", lambda: C03.check_counter_engine(ctx, P6, "chacha::reference", "K6"))
         ctx.guard("round-count", "reference", lambda: C03.check_round_loops(ctx, P6, "chacha::reference", [16, 12, 8, 7]))
         ctx.guard("hcore-words", "both", lambda: C03.check_output_ad(ctx, progs.get("K0"), P6))
-    ctx.not_decided += ["bit-identity of the vector round computations with the scalar ones (BLAKE2 message permutation / diagonalisation macros, SHA-256 lane-wise schedule arithmetic)", "input alignment independence beyond the aligned-access rule"]
+    ctx.not_decided += ["bit-identity of the SHA-256 lane-wise schedule arithmetic with the scalar schedule", "input alignment independence beyond the aligned-access rule"]
